@@ -88,10 +88,10 @@ PROPS = {
             "the harness owns the completion order of the opens, not finer goroutine interleavings; the race detector only judges interleavings that occurred - the weakest claim of the set",
         ],
         "replay_test": "TestC18",
-        "quick": [rapid("TestC18", 40),
+        "quick": [rapid("TestC18", 120),
                   rapid("TestC18Render", 40, binary="cmdmain", shard_base=200),
                   rapid("TestC18", 10, race=True, shard_base=100, env={"VERIF_C18_MAXCTRS": "4", "VERIF_C18_REPS": "2"}, allow_short=True)],
-        "thorough": [rapid("TestC18", 150, shards=16, env={"VERIF_C18_REPS": "20"}, timeout=3000),
+        "thorough": [rapid("TestC18", 200, shards=16, env={"VERIF_C18_REPS": "20"}, timeout=3000),
                      rapid("TestC18Render", 300, shards=4, binary="cmdmain", shard_base=200, timeout=3000),
                      rapid("TestC18", 200, race=True, shard_base=100, env={"VERIF_C18_MAXCTRS": "4", "VERIF_C18_REPS": "3"}, timeout=3000)],
     },
@@ -336,7 +336,7 @@ PROPS = {
         "thorough": [rapid("TestC03", 12000, shards=16, timeout=1800), fuzz("FuzzC03", 120)],
     },
     "C20": {
-        "rule": "cases: every string of length 1..5 over {a,Z,0,9,_,.,-,/,space,é,世,0xFF,0xC3} (exhaustive) plus "
+        "rule": "cases: every string of length 1..5 over {a,Z,0,9,_,.,-,/,space,é,世,0xFF,0xC3,U+0663 ARABIC-INDIC DIGIT THREE} (exhaustive) plus "
                 "rapid-generated keys up to 64 symbols, selector queries through the fake daemon and '| json' "
                 "extractions; non-trivial = the key contains at least one offending character or starts with a digit; "
                 "distinct = enumerated strings are distinct by construction, generated cases are de-duplicated by hash",
